@@ -4,6 +4,7 @@ from __future__ import annotations
 
 import logging
 import re
+import os
 import signal
 import traceback
 
@@ -67,7 +68,8 @@ class LineRunner:
 
     def __init__(self, state: str, proto: str = 'imap', *, cpu_s: float = 5.0,
                  setup=None, world_kw=None, select=b'SELECT INBOX',
-                 post=None) -> None:
+                 post=None, backend: str = 'dict') -> None:
+        self.backend = backend     # 'dict' | '++' | 'fs' (maildir layouts)
         self.state = state
         self.proto = proto
         self.cpu_s = cpu_s
@@ -83,9 +85,12 @@ class LineRunner:
     # ---- world -------------------------------------------------------------
     def build(self):
         self.drop()
-        kw = dict(demo_data=True, users={}, bad_command_limit=None)
-        kw.update(self.world_kw)
-        w = DictWorld(**kw)
+        if self.backend == 'dict':
+            kw = dict(demo_data=True, users={}, bad_command_limit=None)
+            kw.update(self.world_kw)
+            w = DictWorld(**kw)
+        else:
+            w = self._maildir_world()
         self.w = w
         self.rebuilds += 1
         self.v = w.connect(proto=self.proto)
@@ -115,6 +120,54 @@ class LineRunner:
                     b'\0demouser\0demopass') + b'"\r\n')
         self.sig0 = self.signature()
 
+    _md_templates: dict = {}
+    _live_md = None
+
+    def _maildir_world(self):
+        """A copy of a prepared store: user demouser, INBOX with 4 messages
+        (flags as in the demo data), Sent (1 message), Trash."""
+        import shutil
+        from . import fsjail
+        from .worlds import MaildirWorld, scratch_root
+        users = {'demouser': ('demopass', ())}
+        # one maildir world per process at a time (the jail, the temporary
+        # directory and the clock base are process-wide)
+        other = LineRunner._live_md
+        if other is not None and other is not self:
+            other.drop()
+        LineRunner._live_md = self
+        t = LineRunner._md_templates.get(self.backend)
+        if t is None:
+            w = MaildirWorld(layout=self.backend, users=users,
+                             jail_cheap=True, bad_command_limit=None)
+            s = w.connect()
+            w.cmd(s, b'LOGIN demouser demopass')
+            for box in (b'Sent', b'Trash'):
+                w.cmd(s, b'CREATE ' + box)
+            body = (b'From: friend@example.com\r\nTo: me@example.com\r\n'
+                    b'Subject: question %d\r\nDate: Mon, 1 Jan 2018 00:00:00 '
+                    b'+0000\r\nContent-Type: text/plain\r\n\r\nDo you know '
+                    b'that?\r\n')
+            for i, fl in enumerate((b'(\\Seen)', b'(\\Answered \\Seen)',
+                                    b'(\\Flagged)', b'()')):
+                m = body % i
+                w.cmd(s, b'APPEND INBOX ' + fl + b' {%d+}\r\n%s' % (len(m), m))
+            m = body % 9
+            w.cmd(s, b'APPEND Sent {%d+}\r\n%s' % (len(m), m))
+            w.cmd(s, b'SELECT INBOX')
+            w.cmd(s, b'LOGOUT')
+            w.own_root = False
+            w.close()
+            t = LineRunner._md_templates[self.backend] = w.root
+        with fsjail.unjailed():
+            root = scratch_root()
+            shutil.rmtree(root)
+            shutil.copytree(t, root, symlinks=True)
+        w = MaildirWorld(layout=self.backend, users=users, root=root,
+                         reuse=True, jail_cheap=True, bad_command_limit=None)
+        w.own_root = True
+        return w
+
     def drop(self):
         if self.w is not None:
             try:
@@ -126,6 +179,26 @@ class LineRunner:
     def signature(self):
         from .checks.c05 import observed_control
         w = self.w
+        if self.backend != 'dict':
+            # real files: names and sizes of everything in the user's store
+            from . import fsjail
+            ent = []
+            base = w.user_dir('demouser')
+            with fsjail.unjailed():
+                for d, ds, fs_ in os.walk(base):
+                    ds.sort()
+                    for f in sorted(fs_):
+                        if f.endswith('.lock'):
+                            continue
+                        pth = os.path.join(d, f)
+                        try:
+                            ent.append((os.path.relpath(pth, base),
+                                        os.path.getsize(pth)))
+                        except OSError:
+                            pass
+                    if not fs_ and not ds:
+                        ent.append((os.path.relpath(d, base), -1))
+            return (observed_control(self.v), tuple(ent))
         if self.proto != 'imap':
             fs = w.filter_set('demouser')
             return (self.v.done, None if fs is None else
